@@ -905,12 +905,12 @@ func mat7(c *Ctx) {
 					}
 					c.Check(flag, key, bo.Pos(), "the scan goes on inside the token only past a foreign FLAG", "the scan continues inside the token past a foreign option that takes a value: letters of that value would be read as options")
 				}
-				for b := range region {
-					if !ir.IsReturn(b) {
+				for _, ret := range ir.ReturnPoints(fn) {
+					b := ret.At
+					if !region[b] {
 						continue
 					}
-					ret := b.Instrs[len(b.Instrs)-1].(*ssa.Return)
-					key := fmt.Sprintf("%s:foreign@%s", Q(fn), relLine(c, fn, ret.Pos()))
+					key := fmt.Sprintf("%s:foreign@%s", Q(fn), relLine(c, fn, ret.Anchor().Pos()))
 					k, isK := ir.ConstInt(ret.Results[1])
 					v, isC := ir.ConstBool(ret.Results[0])
 					if !isK || !isC || v || ret.Results[2] != ssa.Value(args) {
@@ -928,14 +928,41 @@ func mat7(c *Ctx) {
 					}
 					n := 0
 					var mismatch []string
+					// an own match is compatible with this foreign branch if it can be reached, within one
+					// iteration of the scan, without taking a branch edge that contradicts the foreign branch's facts
+					contra := ir.EdgesContradicting(fn, sf)
+					hdrs := map[*ssa.BasicBlock]bool{}
+					for _, h := range fn.Blocks {
+						if isLoopHeader(h) {
+							for _, p := range h.Preds {
+								if h.Dominates(p) {
+									contra[ir.Edge{From: p, To: h}] = true
+								}
+							}
+							hdrs[h] = true
+						}
+					}
+					feasible := ir.Reach(fn.Blocks[0], nil, contra)
 					for _, o := range owns {
-						compatible := true
+						if !feasible[o.r.Block()] {
+							continue
+						}
+						// and the other way round: this foreign branch under the own match's facts
+						of := map[string]bool{}
 						for _, cd := range ir.DominatingConds(o.r.Block()) {
-							if w, shared := sf[cd.Key]; shared && w != cd.Want {
-								compatible = false
+							if !strings.Contains(cd.Key, ".theOne") {
+								of[cd.Key] = cd.Want
 							}
 						}
-						if !compatible {
+						contra2 := ir.EdgesContradicting(fn, of)
+						for h := range hdrs {
+							for _, p := range h.Preds {
+								if h.Dominates(p) {
+									contra2[ir.Edge{From: p, To: h}] = true
+								}
+							}
+						}
+						if !ir.Reach(fn.Blocks[0], nil, contra2)[b] {
 							continue
 						}
 						n++
@@ -1141,18 +1168,7 @@ func mat8(c *Ctx) {
 				} else {
 					kind = "attached"
 					cl.eq++
-					okG := false
-					ir.Instrs(fn, func(in ssa.Instruction) {
-						bo, ok := in.(*ssa.BinOp)
-						if !ok {
-							return
-						}
-						if s, isS := ir.ConstString(bo.Y); isS && s == "" && bo.X == r.val {
-							if (bo.Op == token.EQL && ir.HoldsAt(bo, false, r.mu.Block())) || (bo.Op == token.NEQ && ir.HoldsAt(bo, true, r.mu.Block())) {
-								okG = true
-							}
-						}
-					})
+					okG := strNonEmptyAt(fn, r.val, r.mu.Block())
 					if !okG {
 						problems = append(problems, "an attached/'=' value is recorded without being tested non-empty")
 					}
@@ -1373,4 +1389,44 @@ func positiveStep(phi *ssa.Phi, v ssa.Value, pred *ssa.BasicBlock) string {
 		return "the scan can go round with a step of 0 (no progress)"
 	}
 	return ""
+}
+
+// strNonEmptyAt: string v is known to be non-empty at block b: a dominating outcome of v == "" / v != ""
+// or of a comparison of len(v) with a constant that excludes length 0.
+func strNonEmptyAt(fn *ssa.Function, v ssa.Value, b *ssa.BasicBlock) bool {
+	found := false
+	ir.Instrs(fn, func(in ssa.Instruction) {
+		bo, ok := in.(*ssa.BinOp)
+		if !ok || found {
+			return
+		}
+		if s, isS := ir.ConstString(bo.Y); isS && s == "" && bo.X == v {
+			if (bo.Op == token.EQL && ir.HoldsAt(bo, false, b)) || (bo.Op == token.NEQ && ir.HoldsAt(bo, true, b)) {
+				found = true
+			}
+			return
+		}
+		lc, isCall := bo.X.(*ssa.Call)
+		if !isCall {
+			return
+		}
+		if bi, isB := lc.Call.Value.(*ssa.Builtin); !isB || bi.Name() != "len" || lc.Call.Args[0] != v {
+			return
+		}
+		k, isK := ir.ConstInt(bo.Y)
+		if !isK {
+			return
+		}
+		for _, want := range []bool{true, false} {
+			if !ir.HoldsAt(bo, want, b) {
+				continue
+			}
+			// does (len op k) == want exclude len == 0 ?
+			t, okT := lenCmp(bo.Op, 0, k)
+			if okT && t != want {
+				found = true
+			}
+		}
+	})
+	return found
 }
